@@ -73,3 +73,8 @@ Theorem c03_analytic_updates_read_analytic_only :
     (c < n /\ Pnz r c = true) \/ c = r.
 Proof. exact update_reads_own_solver. Qed.
 Print Assumptions c03_analytic_updates_read_analytic_only.
+
+(* non-vacuity: in a 2-variable analytic block where row 0 reads column 1, the update of row 0 does mention variable 1 *)
+Example c03_analytic_updates_example :
+  In (TVar 1) (usyms (tsym nat) 2 TVar TProp TStep (fun _ => map TPar []) (fun _ => map TPar []) (fun r c => Nat.leb r c) (fun _ => false) (fun _ => false) 0).
+Proof. vm_compute. tauto. Qed.
